@@ -54,17 +54,32 @@ var Prop = &engine.Prop{
 type mapKind struct {
 	name string
 	mk   func(ratio int) semap.SemMapper
+	// fixed > 0: the constructor is called without a ratio option, the map has this (documented
+	// default) ratio whatever is asked for
+	fixed int
+}
+
+// ratioOf is the ratio a map of this kind has when the case asked for ratio.
+func (m mapKind) ratioOf(ratio int) int {
+	if m.fixed > 0 {
+		return m.fixed
+	}
+	return ratio
 }
 
 func mapKinds() []mapKind {
 	var out []mapKind
-	out = append(out, mapKind{"single", func(r int) semap.SemMapper { return semap.NewSemMap(semap.WithRwRatio(r)) }})
+	out = append(out, mapKind{name: "single", mk: func(r int) semap.SemMapper { return semap.NewSemMap(semap.WithRwRatio(r)) }})
+	// built without any option: the documented defaults (ratio 10, 73 shards)
+	out = append(out, mapKind{name: "single-no-options", mk: func(int) semap.SemMapper { return semap.NewSemMap() }, fixed: semap.DefaultRWRatio})
+	out = append(out, mapKind{name: "wide-mod-no-options", mk: func(int) semap.SemMapper { return semap.NewWideSemMap() }, fixed: semap.DefaultRWRatio})
+	out = append(out, mapKind{name: "wide-xxh-prime-only", mk: func(int) semap.SemMapper { return semap.NewWideXHashSemMap(semap.WithPrime(3)) }, fixed: semap.DefaultRWRatio})
 	for _, p := range []uint64{1, 2, 3, 73} {
 		p := p
-		out = append(out, mapKind{fmt.Sprintf("wide-mod-%d", p), func(r int) semap.SemMapper {
+		out = append(out, mapKind{name: fmt.Sprintf("wide-mod-%d", p), mk: func(r int) semap.SemMapper {
 			return semap.NewWideSemMap(semap.WithRwRatio(r), semap.WithPrime(p))
 		}})
-		out = append(out, mapKind{fmt.Sprintf("wide-xxh-%d", p), func(r int) semap.SemMapper {
+		out = append(out, mapKind{name: fmt.Sprintf("wide-xxh-%d", p), mk: func(r int) semap.SemMapper {
 			return semap.NewWideXHashSemMap(semap.WithRwRatio(r), semap.WithPrime(p))
 		}})
 	}
@@ -343,6 +358,7 @@ func schedCase(k *engine.Case) {
 		}
 		return i * 2
 	}
+	ratio = mkd.ratioOf(ratio)
 	m := mkd.mk(ratio)
 	k.Logf("map=%s ratio=%d keys=%d strkeys=%v sized-integer-keys=%v", mkd.name, ratio, nkeys, useStr, typed)
 	d := engine.NewDriver(Q, k)
@@ -702,6 +718,7 @@ func stressCase(k *engine.Case) {
 	procs := []int{2, 4, 16}[r.Intn(3)]
 	sections := 1500
 	const nkeys = 2
+	ratio = mkd.ratioOf(ratio)
 	m := mkd.mk(ratio)
 	old := runtime.GOMAXPROCS(procs)
 	defer runtime.GOMAXPROCS(old)
@@ -837,6 +854,7 @@ func manyKeysCase(k *engine.Case) {
 	kinds := mapKinds()
 	mkd := kinds[r.Intn(len(kinds))]
 	ratio := []int{1, 2, 3, 10}[r.Intn(4)]
+	ratio = mkd.ratioOf(ratio)
 	m := mkd.mk(ratio)
 	n := 4200 + r.Intn(5000)
 	keep := 1 + r.Intn(40) // this many keys stay held at any time (window)
